@@ -285,6 +285,15 @@ func (s *mpSys) checkMPListing() ([]*engine.Violation, int64) {
 				break
 			}
 		}
+		// a page size beyond every clamp is a page size: the whole listing comes back
+		for _, mp := range []string{"2147483648", "9223372036854775807"} {
+			pg := s.w.ListParts(s.bucket, u.Key, u.ID, "max-parts="+mp)
+			evals++
+			if pg.Panic != "" || pg.Status != 200 || render(pg.Parts) != wantAll || pg.IsTruncated {
+				bad("list-parts", fmt.Sprintf("status=%d:%s%s", pg.Status, pg.Code, panicSigOf(pg.Panic)), "huge-max-parts", "max-parts=%s: got%s trunc=%v", mp, render(pg.Parts), pg.IsTruncated)
+				break
+			}
+		}
 		// arbitrary numeric markers
 		highest := 0
 		if n > 0 {
@@ -294,7 +303,7 @@ func (s *mpSys) checkMPListing() ([]*engine.Violation, int64) {
 		for _, nn := range ns {
 			truth[fmt.Sprintf("%d/%d/%s", nn, len(u.Parts[nn].Body), model.PartETag(u.Parts[nn].Body))] = true
 		}
-		for _, m := range []int{0, 1, 2, 4, 5, 6, 9999, 10000, 10001, 99999} {
+		for _, m := range []int{0, 1, 2, 4, 5, 6, 9999, 10000, 10001, 99999, 2147483647, 2147483648, 4294967296, 9223372036854775807} {
 			pg := s.w.ListParts(s.bucket, u.Key, u.ID, "part-number-marker="+strconv.Itoa(m))
 			evals++
 			cond := "client-marker"
